@@ -173,6 +173,39 @@ static void op_lifeleak(const V &a, V &r) {
 }
 #endif
 
+// karamem <size> <trials> <seed> : Karatsuba_aux on caller-provided arrays of exactly the size the model predicts, each followed by
+//   guard words; prints: highest written byte offset of buf + 1 (max over trials), 1 if every guard survived, 1 if the result
+//   equals the schoolbook product.  Under ASan the arrays are exact-size heap blocks (an access past them aborts).
+extern "C" void Karatsuba_aux(Torus32 *R, const int32_t *A, const Torus32 *B, const int32_t size, const char *buf);
+static void op_karamem(const V &a, V &r) {
+    const int size = (int) a[0], trials = (int) a[1]; unsigned seed = (unsigned) a[2]; const size_t use = (size_t) a[3];
+    size_t hw = 0; bool guards = true, right = true;
+    for (int t = 0; t < trials; t++) {
+        srand(seed + t);
+        const size_t G = 64;
+        std::vector<int32_t> A(size), B(size);
+        for (int i = 0; i < size; i++) { A[i] = (int32_t) ((unsigned) rand() * 2654435761u); B[i] = (int32_t) ((unsigned) rand() * 40503u + (unsigned) rand()); }
+        // exact-size blocks (ASan redzones right behind them) for R and for the workspace
+        Torus32 *R = (Torus32 *) malloc(sizeof(Torus32) * (size_t) (2 * size - 1));
+        char *buf = (char *) malloc(use ? use : 1);
+        memset(buf, 0xA5, use ? use : 1);
+        for (int i = 0; i < 2 * size - 1; i++) R[i] = 0x5A5A5A5A;
+        // second run on padded arrays to locate the high-water mark and to see writes behind the predicted end without dying
+        Karatsuba_aux(R, A.data(), B.data(), size, buf);
+        for (size_t i = use; i > 0; i--) if ((unsigned char) buf[i - 1] != 0xA5) { if (i > hw) hw = i; break; }
+        std::vector<char> big(use + 4 * G, (char) 0xA5); std::vector<Torus32> R2(2 * size - 1 + G, 0x5A5A5A5A);
+        Karatsuba_aux(R2.data(), A.data(), B.data(), size, big.data());
+        for (size_t i = use; i < big.size(); i++) if ((unsigned char) big[i] != 0xA5) guards = false;
+        for (size_t i = 2 * size - 1; i < R2.size(); i++) if (R2[i] != 0x5A5A5A5A) guards = false;
+        for (int i = 0; i < 2 * size - 1; i++) {
+            uint32_t acc = 0; for (int j = 0; j < size; j++) { int q = i - j; if (q >= 0 && q < size) acc += (uint32_t) A[j] * (uint32_t) B[q]; }
+            if ((int32_t) acc != R[i] || R[i] != R2[i]) right = false;
+        }
+        free(buf); free(R);
+    }
+    r.push_back((ll) hw); r.push_back(guards); r.push_back(right);
+}
+
 int main() {
     std::string line;
     while (std::getline(std::cin, line)) {
@@ -182,6 +215,7 @@ int main() {
         if (op == "life") op_life(a, r);
         else if (op == "small") op_small(a, r);
         else if (op == "threads") op_threads(a, r);
+        else if (op == "karamem") op_karamem(a, r);
 #ifdef VERIF_LEDGER
         else if (op == "ledger") op_ledger(a, r);
         else if (op == "lifeleak") op_lifeleak(a, r);
